@@ -1,7 +1,7 @@
 (* C04 - property theorems only: each closed by [exact], Print Assumptions beneath. *)
 From Coq Require Import List NArith.
 From TatsuV Require Import Base.PyStr Engine.Value Engine.Syntax Engine.Input Engine.Engine Engine.Calls
-     Engine.MemoProof.
+     Engine.MemoProof Engine.SemProof.
 
 (* Memoization never changes what a parse returns.  For every grammar in which no rule is marked left
    recursive, every text, regex / unicode oracle, input configuration, semantic-action oracle, and EVERY engine
@@ -19,3 +19,26 @@ Theorem C04_memo_transparent :
     = peval text re_at isalnum isalpha lower upper ic unsafe rules ec act lineat n e f.
 Proof. exact memo_transparent. Qed.
 Print Assumptions C04_memo_transparent.
+
+(* "enabling parse information only adds the parseinfo entries" - at the level of one rule invocation (partial: the lift to
+   whole parses, where the decorated nodes travel through lists and dicts, is held by the settings-matrix oracle of
+   harness/props/c04.py, which compares results with the entries erased AND the entries themselves across memo settings).
+   After a successful body, with parseinfo on vs off: same keyword check, same argument handed to the action, same
+   success / failure / exception, same end position; a dict node differs in nothing but the two reserved keys. *)
+Theorem C04_parseinfo_only_adds_partial : forall upper ic lineat ec act rl r p fb,
+  let on := post_body upper ic (with_pinfo ec true) act lineat rl r p fb in
+  let off := post_body upper ic (with_pinfo ec false) act lineat rl r p fb in
+  snd on = snd off /\
+  match fst on, fst off with
+  | ROk n1 p1, ROk n2 p2 =>
+      p1 = p2 /\
+      match n2 with
+      | VDict a2 => exists a1, n1 = VDict a1 /\ forall k, reserved k = false -> ast_get a1 k = ast_get a2 k
+      | _ => n1 = n2
+      end
+  | RFail, RFail => True
+  | RFatal x, RFatal y => x = y
+  | _, _ => False
+  end.
+Proof. exact post_body_parseinfo_only_adds. Qed.
+Print Assumptions C04_parseinfo_only_adds_partial.
